@@ -127,7 +127,7 @@ def run_history(kind, ops, workdir):
                     inst = {0: cls(location=d), 5: cls(location=d, seconds=5)}
                 elif k == "stamp":
                     with open(os.path.join(d, "version"), "w") as f:
-                        f.write(op["version"])
+                        f.write(real_stamp(op["version"]))
                 elif k == "tear":
                     p = path(op["id"])
                     if os.path.exists(p):
@@ -146,6 +146,12 @@ def run_history(kind, ops, workdir):
     return out
 
 
+def real_stamp(v):
+    """'@+x' stands for the running version followed by x (a foreign stamp that merely extends ours)."""
+    import suds
+    return suds.__version__ + v[2:] if v.startswith("@+") else v
+
+
 def model_ops(ops):
     import suds
     res = []
@@ -153,6 +159,8 @@ def model_ops(ops):
         o = dict(op)
         if o["op"] == "reopen":
             o["version"] = suds.__version__
+        if o["op"] == "stamp":
+            o["version"] = real_stamp(o["version"])
         res.append(o)
     return res
 
@@ -167,7 +175,7 @@ def histories(ctx, workdir):
                   {"op": "purge", "id": i}, {"op": "tear", "id": i, "at": 7}, {"op": "tear", "id": i, "at": 40, "zero": True},
                   {"op": "vanish", "id": i}]
     atoms += [{"op": "clear"}, {"op": "advance", "dt": 3}, {"op": "advance", "dt": 6}, {"op": "reopen"},
-              {"op": "stamp", "version": "0.0-foreign"}]
+              {"op": "stamp", "version": "0.0-foreign"}, {"op": "stamp", "version": "@+.post1"}]
     depth = ctx.pick(3, 4)
     seqs = []
     budget = ctx.pick(2500, 60000)
@@ -516,8 +524,11 @@ def warm_clients(ctx, workdir):
 def shared_dir(ctx, workdir):
     """One directory used by both cache classes: clear and the version check act on every entry."""
     import suds.cache
+    import suds
+    v = suds.__version__
+    actions = ["clear"] + ["foreign-version:" + x for x in ("0.0-foreign", v + ".post1", v + "1", v + "rc1", v[:-1], "")]
     for opener in ("object", "document"):
-        for action in ("foreign-version", "clear"):
+        for action in actions:
             d = tempfile.mkdtemp(dir=workdir)
             oc = suds.cache.ObjectCache(location=d)
             dc = suds.cache.DocumentCache(location=d)
@@ -525,9 +536,9 @@ def shared_dir(ctx, workdir):
             dc.put("b", mk_value("document", 2))
             meta = {"opened_by": opener, "action": action}
             ctx.case(("shared", opener, action), True)
-            if action == "foreign-version":
+            if action.startswith("foreign-version:"):
                 with open(os.path.join(d, "version"), "w") as f:
-                    f.write("0.0-foreign")
+                    f.write(action.split(":", 1)[1])
                 (suds.cache.ObjectCache if opener == "object" else suds.cache.DocumentCache)(location=d)
             else:
                 (oc if opener == "object" else dc).clear()
@@ -539,6 +550,32 @@ def shared_dir(ctx, workdir):
             shutil.rmtree(d, ignore_errors=True)
 
 
+def url_case(ctx, workdir):
+    """Cache ids never alias: two documents at URLs that differ only in letter case keep their own entries."""
+    import suds.cache
+    import suds.client
+    import suds.store
+    def wsdl(opname):
+        return wsdlkit.wsdl_doc('<xsd:element name="%s"><xsd:complexType><xsd:sequence/></xsd:complexType></xsd:element>'
+                                % opname, opname, None, op=opname)
+    for policy in (0, 1):
+        d = tempfile.mkdtemp(dir=workdir)
+        try:
+            store = suds.store.DocumentStore()
+            store.update({"api/V1/Service.wsdl": wsdl("alpha"), "api/v1/service.wsdl": wsdl("beta")})
+            names = []
+            for url in ("suds://api/V1/Service.wsdl", "suds://api/v1/service.wsdl", "suds://api/V1/Service.wsdl"):
+                c = suds.client.Client(url, documentStore=store, cache=suds.cache.ObjectCache(location=d),
+                                       cachingpolicy=policy)
+                names.append([m[0] for m in c.sd[0].ports[0][1]])
+            ctx.case(("url-case", policy), True)
+            if names != [["alpha"], ["beta"], ["alpha"]]:
+                ctx.fail("documents at URLs differing only in letter case share a cache entry", {"cachingpolicy": policy},
+                         names, [["alpha"], ["beta"], ["alpha"]])
+        finally:
+            shutil.rmtree(d, ignore_errors=True)
+
+
 def run(ctx):
     workdir = tempfile.mkdtemp(prefix="verif-c11-")
     try:
@@ -547,6 +584,7 @@ def run(ctx):
         stress(ctx, workdir)
         write_failures(ctx, workdir)
         shared_dir(ctx, workdir)
+        url_case(ctx, workdir)
         warm_clients(ctx, workdir)
     finally:
         shutil.rmtree(workdir, ignore_errors=True)
